@@ -11,6 +11,7 @@
   loops retain (explicitly computed), OPT re-appended last, `Truncated` or-ed with "something skipped".
 -/
 import MosVerif.Lemmas.TranslatedC09
+import MosVerif.Lemmas.TranslatedEncRR2
 import MosVerif.Lemmas.CodecTruncProps
 import MosVerif.Model.RespIO
 namespace MosVerif.C09
@@ -308,10 +309,7 @@ set_option maxRecDepth 100000 in
     the model is written against. -/
 theorem pins :
     Facts.pack_minSize = 512 ∧ Facts.pack_minSizeAssign = 512 ∧
-    Facts.pack_skipCond = "size > 0 && off+r.packLen() > size" ∧
-    Facts.pack_skipCondQ = "size > 0 && off+q.Len() > size" ∧
     Facts.pack_continueCount = 4 ∧ Facts.pack_breakCount = 0 ∧ Facts.pack_tcCount = 4 ∧ Facts.pack_decCount = 4 ∧
-    Facts.pack_optBudget = "size -= edns0Opt.packLen()" ∧
     Facts.pack_hdrWritten = "h.pack(b[:12])" ∧
     Facts.resp_cap = 65535 ∧ Facts.resp_capAssign = 65535 ∧ Facts.resp_tcpSize = "65535" ∧
     Facts.resp_tcpPrefix = "binary.BigEndian.PutUint16(b, uint16(n))" ∧
